@@ -511,6 +511,61 @@ func genLexAlts(r *rng, depth int, macroNames []string) [][]lterm {
 	return alts
 }
 
+// genNestedCardRule: cardinalities on groups whose single alternative itself begins and/or ends with a group
+// under a cardinality, e.g.  [0-9]+ ('.' ('_'? [0-9])+)?   or   'a' ((Y Z)+ X)*  — the shapes in which the
+// begin/end states of an inner group coincide with those of the outer one if a construction shares states.
+func genNestedCardRule(r *rng) [][]lterm {
+	atom := func() lterm {
+		if r.chance(1, 2) {
+			return lterm{re: &lre{kind: 0, lit: []int{pick(r, lexAlphabet)}}}
+		}
+		for {
+			c := genLexClass(r)
+			if nonEmptyClass(c) {
+				return lterm{re: &lre{kind: 1, class: c}}
+			}
+		}
+	}
+	group := func(seq []lterm, card string) lterm {
+		return lterm{re: &lre{kind: 4, alts: [][]lterm{seq}}, card: card}
+	}
+	inner := func() lterm {
+		var seq []lterm
+		for n := 1 + r.intn(2); n > 0; n-- {
+			a := atom()
+			if r.chance(1, 4) {
+				a.card = "?"
+			}
+			seq = append(seq, a)
+		}
+		if seq[0].card == "?" && len(seq) == 1 {
+			seq[0].card = ""
+		}
+		return group(seq, pick(r, []string{"+", "*", "+", "?"}))
+	}
+	var body []lterm
+	switch r.intn(4) {
+	case 0: // X (inner)
+		body = []lterm{atom(), inner()}
+	case 1: // (inner) X
+		body = []lterm{inner(), atom()}
+	case 2: // (inner) alone
+		body = []lterm{inner()}
+	default: // (inner) X (inner)
+		body = []lterm{inner(), atom(), inner()}
+	}
+	outer := group(body, pick(r, []string{"?", "*", "+", "?"}))
+	seq := []lterm{atom()}
+	if r.chance(1, 2) {
+		seq[0].card = "+"
+	}
+	seq = append(seq, outer)
+	if r.chance(1, 3) {
+		seq = append(seq, atom())
+	}
+	return [][]lterm{seq}
+}
+
 // genNGRule: prefix, non-greedy repetition of a one-character expression, literal terminator
 func genNGRule(r *rng) [][]lterm {
 	var seq []lterm
@@ -571,6 +626,8 @@ func genLexSpec(r *rng, o lexGenOpts) *lspec {
 			if o.ng && i == 0 {
 				rule.alts = genNGRule(r)
 				rule.ng = true
+			} else if r.chance(1, 6) {
+				rule.alts = genNestedCardRule(r)
 			} else {
 				rule.alts = genLexAlts(r, 0, macroNames)
 			}
@@ -622,6 +679,16 @@ func genLexSpec(r *rng, o lexGenOpts) *lspec {
 		m := &lmode{name: mn, items: genRules(true)}
 		// make sure the mode can be left
 		m.items = append(m.items, litem{rule: &lrule{frag: true, alts: [][]lterm{{{re: &lre{kind: 0, lit: []int{'}'}}}}}, acts: []lact{{kind: "pop"}, {kind: "discard"}}}})
+		pos := r.intn(len(s.items) + 1)
+		s.items = append(s.items[:pos], append([]litem{{mode: m}}, s.items[pos:]...)...)
+	}
+	if o.modes && r.chance(1, 3) {
+		// a mode without any token or fragment rule (empty, or holding only a macro), placed anywhere in the
+		// name order: mode indices are positions in the sorted name list and must not depend on it
+		m := &lmode{name: pick(r, []string{"Aa", "Mid", "Zz", "B"}) + "9"}
+		if r.chance(1, 2) {
+			m.items = append(m.items, litem{macro: &lrule{name: "EMAC", alts: [][]lterm{{{re: &lre{kind: 0, lit: []int{'q'}}}}}}})
+		}
 		pos := r.intn(len(s.items) + 1)
 		s.items = append(s.items[:pos], append([]litem{{mode: m}}, s.items[pos:]...)...)
 	}
